@@ -1,7 +1,6 @@
 CONSTANTS
   Keys <- KeysAll
   MaxLen = 2
-  Full = FALSE
   Quiet = FALSE
 INIT Init
 NEXT Next
